@@ -2,6 +2,7 @@ package host
 
 import (
 	"crypto/sha256"
+	"encoding/hex"
 	"crypto/tls"
 	"errors"
 	"fmt"
@@ -53,6 +54,9 @@ func TestC14(t *testing.T) {
 		}
 		if p.OldPlugin {
 			pcfg["unsetEnv"] = []string{"PLUGIN_MULTIPLEX_GRPC"}
+		}
+		if p.RawLine != "" {
+			pcfg = map[string]any{"mode": "raw", "lineHex": hex.EncodeToString([]byte(p.RawLine + "\n")), "after": "hang", "ctl": ""}
 		}
 		cfg := mkCfg()
 		if p.Conflict != "" {
